@@ -115,6 +115,12 @@ func (f *FileBackend) writeLoop() {
 	dest, err := OpenRotateFile(f.File, f.Mode, f.MaxSize)
 	if err != nil {
 		log.Errorf("Failed create destination file: %s", err)
+
+		// keep consuming, otherwise every Send (and with it the whole event bus)
+		// blocks forever on the unbuffered request channel
+		for range f.request {
+		}
+
 		return
 	}
 
